@@ -143,7 +143,12 @@ def loops_to_comprehensions(fn, stats: Dict[str, int]) -> None:
                                 if acc is not None:
                                     elt, gens = acc
                                     tv = _loop_targets(gens)
-                                    if not any(isinstance(n, ast.Name) and n.id in tv and isinstance(n.ctx, ast.Load) for x in b[i + 1:] for n in ast.walk(x)):
+                                    # a private helper called for its effect must stay a statement-level call (it may be a new helper that
+                                    # is inlined back afterwards): leave such loops alone
+                                    private_call = any(isinstance(c_, ast.Call) and ((isinstance(c_.func, ast.Name) and c_.func.id.startswith("_")) or
+                                                                                    (isinstance(c_.func, ast.Attribute) and c_.func.attr.startswith("_") and isinstance(c_.func.value, ast.Name)
+                                                                                     and c_.func.value.id in ("self", "cls"))) for c_ in ast.walk(elt))
+                                    if not private_call and not any(isinstance(n, ast.Name) and n.id in tv and isinstance(n.ctx, ast.Load) for x in b[i + 1:] for n in ast.walk(x)):
                                         call = ast.Expr(value=ast.Call(func=ast.Attribute(value=ast.Name(id=name, ctx=ast.Load()), attr="extend", ctx=ast.Load()),
                                                                        args=[ast.GeneratorExp(elt=elt, generators=gens)], keywords=[]))
                                         ast.copy_location(call, st)
